@@ -6,7 +6,7 @@ import os
 import z3
 
 from . import REPO, frontend
-from .engine import (Arr, BoundMethod, CompRef, DtypeRef, FnRef, Lam, ModRef, Obj, PList, StrV, Tup, Unsupported, fresh,
+from .engine import (sel, Arr, BoundMethod, CompRef, DtypeRef, FnRef, Lam, ModRef, Obj, PList, StrV, Tup, Unsupported, fresh,
                      is_concrete, is_int, zbool, zint, DTYPE_ALIASES, RETURN, NORMAL, RAISE, State)
 from .loops import RangeV
 
@@ -87,6 +87,24 @@ def shape_of(ex, v):
     if isinstance(v, Arr):
         raise Unsupported("array as shape")
     return (v,)
+
+
+def _select_terms(e, var):
+    """select/function applications in e that mention var directly as an argument (candidate triggers)."""
+    out = []
+    seen = set()
+
+    def walk(t):
+        if t.get_id() in seen:
+            return
+        seen.add(t.get_id())
+        if z3.is_app(t):
+            if t.decl().kind() in (z3.Z3_OP_SELECT, z3.Z3_OP_UNINTERPRETED) and any(c.eq(var) for c in t.children()):
+                out.append(t)
+            for c in t.children():
+                walk(c)
+    walk(e)
+    return out
 
 
 def qforall(vs, body, pats=None):
@@ -614,12 +632,17 @@ def L_np_where(ex, st, node, cond, *rest):
     M = st.heap[cond.oid]
     i, j = fresh("i", z3.IntSort()), fresh("j", z3.IntSort())
     st.assume(z3.And(cnt >= 0, cnt <= n))
-    st.assume(qforall([i], z3.Implies(z3.And(i >= 0, i < cnt), z3.And(P[i] >= 0, P[i] < n, M[P[i]])), [P[i]]))
+    st.assume(qforall([i], z3.Implies(z3.And(i >= 0, i < cnt), z3.And(P[i] >= 0, P[i] < n, sel(M, P[i]))), [P[i]]))
     st.assume(qforall([i, j], z3.Implies(z3.And(i >= 0, i < j, j < cnt), P[i] < P[j]), [z3.MultiPattern(P[i], P[j])]))
     # completeness: every true position is enumerated
     rank = z3.Function(f"rank!{pos.oid}", z3.IntSort(), z3.IntSort())
-    st.assume(qforall([j], z3.Implies(z3.And(j >= 0, j < n, M[j]), z3.And(rank(j) >= 0, rank(j) < cnt, P[rank(j)] == j)), [rank(j)]))
-    st.assume(qforall([j], z3.Implies(z3.And(j >= 0, j < n, M[j]), z3.And(rank(j) >= 0, rank(j) < cnt, P[rank(j)] == j))))
+    st.assume(qforall([j], z3.Implies(z3.And(j >= 0, j < n, sel(M, j)), z3.And(rank(j) >= 0, rank(j) < cnt, P[rank(j)] == j)), [rank(j)]))
+    mj = sel(M, j)
+    trig = _select_terms(mj, j)
+    if trig:
+        st.assume(qforall([j], z3.Implies(z3.And(j >= 0, j < n, mj), z3.And(rank(j) >= 0, rank(j) < cnt, P[rank(j)] == j)), [trig[0]]))
+    else:
+        st.assume(qforall([j], z3.Implies(z3.And(j >= 0, j < n, mj), z3.And(rank(j) >= 0, rank(j) < cnt, P[rank(j)] == j))))
     ex.ctx.where_rank = getattr(ex.ctx, "where_rank", {})
     ex.ctx.where_rank[pos.oid] = rank
     return Tup([pos])
@@ -697,7 +720,7 @@ def mask_read(ex, st, a, mask, node):
     a1 = flat1(ex, st, a)
     ex.same_shape(st, a1, mask, node)
     pos = L_np_where(ex, st, node, mask).items[0]
-    res = ex.elementwise(st, pos.shape, a.dtype, lambda k: ex.read(st, a1, (st.heap[pos.oid][k[0]],), node, check=False), "compress")
+    res = ex.elementwise(st, pos.shape, a.dtype, lambda k: ex.read(st, a1, (sel(st.heap[pos.oid], k[0]),), node, check=False), "compress")
     res.positions = pos
     res.source = a
     return res
@@ -726,7 +749,7 @@ def mask_write(ex, st, a, mask, v, node):
     else:
         val = ex.coerce_elem(st, a.dtype, v, None)
         ex.cast_all(st, a.dtype, v, node)
-    st.heap[a.oid] = z3.Lambda([k], z3.If(z3.And(inr, M[k]), val, old[k]))
+    st.heap[a.oid] = z3.Lambda([k], z3.If(z3.And(inr, sel(M, k)), val, sel(old, k)))
     if a.oid in st.written:
         w = st.written[a.oid]
-        st.written[a.oid] = z3.Lambda([k], z3.Or(z3.And(inr, M[k]), w[k]))
+        st.written[a.oid] = z3.Lambda([k], z3.Or(z3.And(inr, sel(M, k)), sel(w, k)))
